@@ -10,4 +10,6 @@ mkdir -p seeded/$ID
 cp /tmp/mut_$ID/patch.diff seeded/$ID/patch.diff
 cp /tmp/mut_$ID/tests/demo_$ID.rs seeded/$ID/demo_$ID.rs
 tools/try_patch.sh /verif/seeded/$ID/patch.diff $CHECKS > seeded/$ID/checks.txt 2>&1
+# keep the replay files the checks wrote for this change
+for P in $CHECKS; do for f in replays/${P}_cex.json replays/${P}_broken.json; do [ -f "$f" ] && [ "$f" -nt seeded/$ID/patch.diff ] && cp "$f" seeded/$ID/replay_$(basename $f); done; done
 cat seeded/$ID/confirm.txt seeded/$ID/checks.txt
